@@ -23,4 +23,11 @@ P("C20", "other", "call-graph hash-cost counting with loop discipline over MIR",
   "only the table-rebuilding operations reach the per-held-entry rehash loop, once; traversals, clear, drain and the LRU/MRU peeks "
   "reach no hash site.",
   TB + " Not decided: cost of Eq comparisons / probe lengths.", "DESIGN.md 3/C20")
+P("C18", "proof", "rustc accept/reject probes with compiling twins + impl-predicate facts",
+  "Decided by rustc's own type and borrow checker: (1) the only unsafe auto-trait impls are Send/Sync for the cache with exactly "
+  "K,V,S: Send resp. Sync; (2) generic positive probes compile; (3) six negative probes (a !Send resp. Send+!Sync witness in each "
+  "parameter position) are rejected with E0277 on the marked line while their twins compile; (4) for every pub fn returning a "
+  "borrow: all lifetimes of the return type are the receiver's, and generated programs that mutate or drop the cache while the "
+  "result (or an item of a borrowing iterator) is alive are rejected with E0499/E0502/E0505, twins compile.",
+  "Trusted base: rustc. Borrow probes instantiate K=V=String; the signature rule is instantiation-independent.", "DESIGN.md 3/C18")
 NOT_CLAIMED = {}
